@@ -526,7 +526,7 @@ func (i *Interpreter) ProcessStringConcatInfixExpression(exp *ast.InfixExpressio
 			case value.TimeType:
 				// If ident value type is TIME, check the next expression is RTIME literal.
 				// If so, it calculates as time calculation.
-				if idx+1 < len(series)-1 {
+				if idx+1 < len(series) {
 					next := series[idx+1]
 					if _, ok := next.Expression.(*ast.RTime); ok {
 						nv, err := i.ProcessExpression(next.Expression)
